@@ -1,8 +1,17 @@
 -------------------------- MODULE MC_JsonRoundTrip --------------------------
 EXTENDS JsonRoundTrip
 AllRoots == Class
-TopRoots == {"Reactions", "PhaseDiagram", "LSR", "StatMech", "Nasa", "References"}
 OneRoot == {"FreeTrans"}
 \* complete lifecycles, printed for replay into the real code
 EmitLife == Len(h) = MaxLife => PrintT(<<"LIFE", h>>)
+
+\* one pass over the state space of the pinned tables that records EVERY invariant that fails
+\* somewhere (TLC register 2, -workers 1) instead of stopping at the first one
+Named == << <<"NoRaise", NoRaise>>, <<"RegistryTotal", RegistryTotal>>, <<"SameClassTree", SameClassTree>>,
+            <<"AttrsKept", AttrsKept>>, <<"DictUntouched", DictUntouched>>, <<"Repeatable", Repeatable>>,
+            <<"Idempotent", Idempotent>> >>
+RecordRejected == TLCSet(2, TLCGet(2) \cup {Named[i][1] : i \in {j \in 1..Len(Named) : ~Named[j][2]}})
+RInit == Init /\ TLCSet(2, {})
+RSpec == RInit /\ [][Next]_vars
+PostRejected == PrintT(<<"REJECTED", TLCGet(2)>>)
 =============================================================================
